@@ -70,7 +70,7 @@ def cases(ctx):
         name = inproc[i % len(inproc)]
         st = {"name": name}
         if name == "shuffle_int":
-            st["seed"] = rng.randint(2, 10 ** 6)
+            st["seed"] = rng.choice([0, 1, rng.randint(2, 10 ** 6), rng.randint(2, 10 ** 6), rng.randint(2, 10 ** 6)])
         if name.startswith("fake"):
             st["perm_seed"] = rng.randint(0, 10 ** 9)
         yield _gen_case(rng, st)
@@ -107,11 +107,11 @@ def cases(ctx):
                 yield {"combos": combos, "spelling": "dict", "constants": {"c0": 1}, "kind": "tuple:2",
                        "split": bool(perm[0] % 2), "flat": bool(perm[-1] % 2),
                        "strategy": {"name": name, "perm": list(perm)}, "values_as": "list"}
-    # every shuffle seed 1..K on a set of shapes
+    # every shuffle seed 0..K on a set of shapes
     nshapes, nseeds = ctx.pick((4, 12), (20, 50))
     for s in range(nshapes):
         base = _gen_case(rng, {"name": "shuffle_int"})
-        for seed in range(1, nseeds + 1):
+        for seed in range(0, nseeds + 1):
             c = dict(base)
             c["strategy"] = {"name": "shuffle_int", "seed": seed}
             yield c
